@@ -74,7 +74,7 @@ NEEDS = {
  "C11d": "(helper: utils.int_to_bin returning () for width 0) props.sensitivity on a functionally constant node with exactly one startpoint",
  "C16d": "(helper: Circuit.remove cascading from a 'pin' recognised by name only) a dead ordinary gate whose name sits under a blackbox instance's prefix (ff0.q_n)",
  "C01e": "THRESHOLD: xor/xnor gates with fan-in >= 7 (7, 11, 13-15, ...): balanced pairwise reduction drops a trailing partial block",
- "C05e": "",
+ "C05e": "THRESHOLD: a gate with at least 4k+1 fan-ins (9 for k=2): helper list merged back twice without being cleared; hash-order dependent above the threshold",
  "C07e": "THRESHOLD: the 14th add(name, uid=True) of one base name (name, name_0..name_10 and name_70 exist)",
  "C08e": "THRESHOLD: >= 10 startpoints given to approx_model_count (sampling set written in chunks of 10 that carry 9 variables each)",
  "C09e": "THRESHOLD: n >= 11 unroll iterations (io_map lists sorted as strings: _0, _1, _10, _2, ...)",
